@@ -169,6 +169,17 @@ def run(ctx):
                 elif w.get_skipped() != visited - len(got):
                     ctx.counterexample('WcMatch(%r, %r, flags=%#x).get_skipped() = %d, visited %d, returned %d' % (fp, ep, f, w.get_skipped(), visited, len(got)),
                                        {'file_pattern': fp, 'exclude_pattern': ep, 'flags': f, 'tree': spec})
+                else:
+                    # the same object again: every run counts from zero and selects the same files
+                    sk1 = w.get_skipped()
+                    got2 = w.match()
+                    sk2 = w.get_skipped()
+                    got3 = list(w.imatch())
+                    sk3 = w.get_skipped()
+                    if not (got2 == got == got3) or not (sk1 == sk2 == sk3):
+                        ctx.counterexample('WcMatch(%r, %r, flags=%#x): repeated runs of one object differ: %d/%d/%d files, get_skipped() %d/%d/%d' % (
+                            fp, ep, f, len(got), len(got2), len(got3), sk1, sk2, sk3),
+                            {'file_pattern': fp, 'exclude_pattern': ep, 'flags': f, 'tree': spec, 'runs': 3})
             results.append(corr.corr_wcmatch(cases))
             if len(samples) < 3:
                 samples.append({'file_pattern': fp, 'exclude_pattern': ep, 'flags': f})
